@@ -478,12 +478,15 @@ class DGen:
     def memory(self, nmod, doms, roles):
         r = self.r
         nsig = len(self.sigs)
-        w = r.randrange(1, 5)
+        # row width and write granularity: half of the memories have 2-4 enable lanes wider than one bit (row widths
+        # that are not powers of two included); with lanes of 1 bit the lane expansion is the identity
+        w, gran0 = r.choice([(1, None), (2, None), (3, None), (4, None), (2, 1), (3, 1),
+                             (4, 2), (6, 2), (6, 3), (8, 4), (8, 2), (9, 3), (12, 4), (12, 3)])
         depth = r.choice([1, 2, 3, 4, 5])
         ab = max(1, (depth - 1).bit_length()) if depth > 1 else r.choice([0, 1])
         noncomb = [j for j in range(nsig) if j not in self.comb_sigs]
         wdom = r.choice(doms)["name"]
-        gran = r.choice([None, None, 1]) if w > 1 else None
+        gran = gran0
         mem = {"mod": r.randrange(nmod), "w": w, "depth": depth,
                "init": [r.randrange(0, 1 << w) for _ in range(r.randrange(0, depth + 1))],
                "wdom": wdom, "gran": gran,
@@ -628,6 +631,8 @@ def _gen_cases(tier, seed):
         ok, why = validate(d)
         if ok:
             cases.append({"k": "rnd", "d": d})
+    for d in memlane_designs():
+        cases.append({"k": "rnd", "d": d})
     for d in prio_designs():
         cases.append({"k": "rnd", "d": d})
     # structural tie of the AssignmentList lowering models (emit_value, emit_assignment_list) to the real code:
@@ -656,6 +661,33 @@ def eaw_designs():
     for lhs, val in ((["pt", arr, ["s", 1], 3, 1], ["c", 7, 3, False]), (["sl", arr, 1, 3], ["c", 3, 2, False])):
         out.append({"sigs": sigs, "doms": [], "mods": [{"parent": None, "name": "m0", "blocks": [["comb", [["as", lhs, val]]]]}],
                     "ins": [0, 1], "outs": [2, 3], "rename": False, "mem": None, "stim": stim})
+    return out
+
+
+def memlane_designs():
+    """a write port with several enable lanes (granularity < row width, 2-4 lanes, row widths 8 / 6 / 9 / 12), the lane
+    enables driven by an input so that every unequal combination occurs; pos and neg edge; every row observed"""
+    out = []
+    for w, g, edge in ((8, 4, "pos"), (6, 2, "neg"), (9, 3, "pos"), (12, 3, "pos")):
+        lanes = w // g
+        sigs = [{"w": lanes, "sg": False, "init": 0, "rl": False}, {"w": w, "sg": False, "init": 0, "rl": False},
+                {"w": 2, "sg": False, "init": 0, "rl": False}]
+        mem = {"mod": 0, "w": w, "depth": 3, "init": [(1 << w) - 1, 0, 5], "wdom": "sync", "gran": g,
+               "waddr": ["s", 2], "wdata": ["s", 1], "wen": ["s", 0],
+               "reads": [{"kind": "transp", "dom": "sync", "addr": ["s", 2], "en": ["c", 1, 1, False]},
+                         {"kind": "comb", "dom": "sync", "addr": ["s", 2], "en": ["c", 1, 1, False]}]}
+        a, i_ = (1, 0) if edge == "pos" else (0, 1)
+        stim = [["clk", [[0, i_]]]] if edge == "neg" else []
+        k = 0
+        for en in list(range(1, 1 << lanes)) + [0]:
+            k += 1
+            data = ((0x5A5 * k) ^ (en << 3)) & ((1 << w) - 1)
+            stim.append(["data", [[["s", 0], en], [["s", 1], data], [["s", 2], k % 3]]])
+            stim.append(["clk", [[0, a]]])
+            stim.append(["clk", [[0, i_]]])
+        out.append({"sigs": sigs, "doms": [{"name": "sync", "rst": "none", "edge": edge, "mod": 0}],
+                    "mods": [{"parent": None, "name": "m0", "blocks": []}], "ins": [0, 1, 2], "outs": [],
+                    "rename": False, "mem": mem, "stim": stim})
     return out
 
 
@@ -1445,6 +1477,8 @@ def classify(c):
         tags.append("portlist")
     if d.get("mem") and d["mem"].get("w2"):
         tags.append("2wports")
+    if d.get("mem") and d["mem"].get("gran") and d["mem"]["w"] // d["mem"]["gran"] >= 2 and d["mem"]["gran"] >= 2:
+        tags.append("lanes")
     if any(x["rst"] == "async" for x in d["doms"]):
         tags.append("async")
     if d.get("mem"):
